@@ -104,8 +104,8 @@ these units only):
   (key()), `a < b` = py_net_ltb (sort_key()), `a in b` = the translated IPNetwork.__contains__ on the operand ONet a;
   `x in <IPSet>` = the translated IPSet.__contains__; `not <IPSet>` = its __nonzero__; the truth value of an int is `!= 0`.
 * `l[i]` on a list = py_index (IndexError; negative i from the end), `l[k:]` = py_list_from k, `n[i]` on an IPNetwork = the
-  translated IPListMixin.__getitem__:int, `sum([<int> for x in xs])` = py_sum (map ..), `IPSet()` / `self.__class__()` = the empty
-  set, `IPRange(a, b)` on two IPAddress objects = py_iprange (the hand model of that constructor), `cidr_merge(l)` = py_cidr_merge,
+  translated IPListMixin.__getitem__:int, `sum([<int> for x in xs])` = py_sum (map ..), `IPSet()` / `self.__class__()` = the
+  translated __init__ for iterable None on a new object (empty state), `IPRange(a, b)` on two IPAddress objects = py_iprange (the hand model of that constructor), `cidr_merge(l)` = py_cidr_merge,
   `iprange_to_cidrs(a, b)` on two IPAddress objects = the translated function on py_net_of_addr a, b (its own IPNetwork(start)).
 * `x = IPNetwork(<name>)` is a private copy: `x._prefixlen -= 1` is a record update as long as x is only read as x.<attr> or as the
   left operand of `in`.  `return <comparison> and <call>` evaluates the call only if the comparison holds.  `assert` is dropped.
@@ -282,6 +282,7 @@ SETS_REQ = " Model.PySlice Model.SrcPreludeSplitter Model.SrcPreludeSets"
 # the definitions of the units before it.  An IPSet parameter (`ipset`) is an already constructed IPSet object = its state.
 SETS_UNITS = [
     (SETSFILE, "pysrc_sets_gen.v", "sets", SETS_REQ,
+     [("IPSet", "__init__:none", {"iterable": "none"})] +
      [("IPSet", m, {}) for m in ("iter_cidrs", "__nonzero__", "size", "__len__", "iscontiguous", "iprange", "clear", "copy")] +
      [("IPSet", "__contains__", {"ip": "net"})] +
      [("IPSet", m, {"other": "ipset"}) for m in ("issubset", "issuperset", "__lt__", "__gt__", "__eq__", "__ne__")]),
@@ -302,7 +303,7 @@ SETS_UNITS = [
      [("IPSet", "add:iprange", {"addr": "iprange"}), ("IPSet", "remove:iprange", {"addr": "iprange"}),
       ("IPSet", "update:net", {"iterable": "net"}), ("IPSet", "update:iprange", {"iterable": "iprange"}),
       ("IPSet", "update:list", {"iterable": "list net"})] +
-     [("IPSet", "__init__:" + t.split()[0], {"iterable": t}) for t in ("none", "net", "iprange", "ipset", "list net")]),
+     [("IPSet", "__init__:" + t.split()[0], {"iterable": t}) for t in ("net", "iprange", "ipset", "list net")]),
 ]
 # IPNetwork.__getstate__ (netaddr/ip/__init__.py) for IPSet.__getstate__: a unit of its own, before the sets units
 SETS_IP_UNIT = (IPFILE, "pysrc_sets_ip_gen.v", "", "", [("IPNetwork", "__getstate__", {})])
@@ -2455,7 +2456,7 @@ class SetsOutParam(ast.NodeTransformer):
         return st
 
 
-def sets_prepare(f, fn):
+def sets_prepare(f, fn, mod=None):
     import copy
     f = copy.deepcopy(f)
     if any(isinstance(n, (ast.Yield, ast.YieldFrom)) for n in ast.walk(f)):
@@ -2467,6 +2468,13 @@ def sets_prepare(f, fn):
         last = ast.copy_location(ast.Return(value=ast.Name(id="sets_yield", ctx=ast.Load())), f.body[-1])
         last.lineno = last.end_lineno = f.end_lineno
         f.body = f.body[:first] + [init] + f.body[first:] + [last]
+    gens = {g.name for g in (mod.tree.body if mod is not None else []) if isinstance(g, ast.FunctionDef)
+            and any(isinstance(n, (ast.Yield, ast.YieldFrom)) for n in ast.walk(g))}
+    whole = {id(n.iter) for n in ast.walk(f) if isinstance(n, ast.For) and not n.orelse
+             and not any(isinstance(x, (ast.Break, ast.Return)) for st in n.body for x in ast.walk(st))}
+    for n in ast.walk(f):
+        if isinstance(n, ast.Call) and isinstance(n.func, ast.Name) and n.func.id in gens and id(n) not in whole:
+            bad(n, "the generator %s is not consumed at once by a `for` without break / return" % n.func.id)
     if f.name in SETS_OUTPARAM and fn is None:
         a = f.args.args[SETS_OUTPARAM[f.name]].arg
         if not isinstance(f.body[-1], ast.Return):
@@ -2686,7 +2694,9 @@ def sets_call(self, node, env):
         unify(node, tl, ("list", Cell("net")), "dict.fromkeys")
         return ("dict", "(py_dict_fromkeys %s)" % l)
     if plain and not node.args and ((name == "IPSet" and "IPSet" in self.mod.classes) or (dotted(f) == "self.__class__" and self.recv == "IPSet")):
-        return ("ipset", "(@nil net)")                  # IPSet(): __init__ with iterable None assigns {}
+        # IPSet(): a new object (no state yet: the empty list) initialised by the translated __init__ for iterable None, flags 0
+        node.state_call = True                          # the state it assigns is that of the new object
+        return sets_method_call(self, node, "__init__", "(@nil net)", [("none", "tt")])
     if name == "cidr_merge" and plain and len(node.args) == 1 and self.mod.imports.get(name) == "netaddr.ip.cidr_merge":
         (tl, l) = self.ex(node.args[0], env)            # not translated: the hand model (SrcPreludeSplitter.py_cidr_merge); a dict = its keys
         if tl != "dict":
@@ -2841,6 +2851,8 @@ def sets_stmt(self, stmts, env, k, after):
                 bad(s, "isinstance against something other than classes of netaddr")
             if any(c.id == "_int_type" for c in cs) and self.mod.imports.get("_int_type") != "netaddr.compat._int_type":
                 bad(s, "_int_type is not netaddr.compat._int_type")
+            if any(c.id not in SETS_LEAF_CLASSES for c in cs):
+                bad(s, "isinstance against %s: not decided by the declared type" % [c.id for c in cs if c.id not in SETS_LEAF_CLASSES][0])
             yes = (SETS_CLASS_OF[tyname(env[t.args[0].id][0])] in [c.id for c in cs]) != neg
             return self.block(sets_then(s.body if yes else s.orelse, rest), env, k, after)
     if (isinstance(s, ast.Try) and len(s.handlers) == 1 and dotted(s.handlers[0].type) == "AttributeError" and not s.orelse and not s.finalbody
@@ -2907,6 +2919,9 @@ _parse_type0 = parse_type
 # the class a declared parameter type stands for (IPGlob, the subclass of IPRange, is not told apart: `rng` is not used for
 # isinstance tests against IPGlob)
 SETS_CLASS_OF = {"ipset": "IPSet", "net": "IPNetwork", "iprange": "IPRange", "none": None, "list": None}
+# the classes an isinstance test may name: none of them is a base class of another one of them, and no declared type stands for
+# an int (a test against a base class such as BaseIP, or against the subclass IPGlob, is rejected)
+SETS_LEAF_CLASSES = ("IPSet", "IPNetwork", "IPRange", "_int_type")
 
 
 def parse_type(s):
@@ -2986,8 +3001,8 @@ def _srca_loop(old, self, s, rest, env, k, after):
                         and isinstance(t.args[0], ast.Name) and t.args[0].id == s.target.id and not body
                         and all(isinstance(c, ast.Name) and c.id not in env for c in (t.args[1].elts if isinstance(t.args[1], ast.Tuple) else [t.args[1]]))):
                     cs = [c.id for c in (t.args[1].elts if isinstance(t.args[1], ast.Tuple) else [t.args[1]])]
-                    if any(not (c in self.mod.classes or (self.mod.imports.get(c) or "").startswith("netaddr.")) for c in cs):
-                        bad(st, "isinstance against something other than classes of netaddr")
+                    if any(not (c in self.mod.classes or (self.mod.imports.get(c) or "").startswith("netaddr.")) or c not in SETS_LEAF_CLASSES for c in cs):
+                        bad(st, "isinstance against something other than IPSet / IPNetwork / IPRange / _int_type")
                     body += st.body if SETS_CLASS_OF[elem] in cs else st.orelse
                 else:
                     body.append(st)
@@ -3013,13 +3028,13 @@ def _srca_method_mutates(old, self, name, seen=()):
 
 @_wrap(Fn, "state_as_locals")
 def _srca_state_as_locals(old, self, f):
-    return old(self, sets_prepare(f, self) if self.recv == "IPSet" else f)
+    return old(self, sets_prepare(f, self, self.mod) if self.recv == "IPSet" else f)
 
 
 @_wrap(Module, "function")
 def _srca_function(old, self, name):
     f = old(self, name)
-    return sets_prepare(f, None) if self.fn == SETSFILE else f
+    return sets_prepare(f, None, self) if self.fn == SETSFILE else f
 
 
 @_wrap(Translator, "__init__")
